@@ -61,7 +61,8 @@ def impl_cumulative(nbf, op, dt, codes, vals, ng, mask, skip_na):
         arr = make_array(vals, dt)
         f = getattr(nbf, "cum" + op)
         out = f(key, arr, ng, np_mask(mask), skip_na)
-        return ("ok", canon_array(out, DT[dt]["dom"]), str(np.asarray(out).dtype))
+        dom = "i" if (op == "sum" and dt in ("i4", "u1", "b")) else DT[dt]["dom"]
+        return ("ok", canon_array(out, dom), str(np.asarray(out).dtype))
     except Exception as e:  # noqa: BLE001
         return ("err", err_kind(e), repr(e)[:200])
 
@@ -71,6 +72,8 @@ def cum_requests(op, dt, codes, vals, ng, mask, skip_na):
         dom, v = "i", list(codes)
     else:
         dom, v = DT[dt]["dom"], vals
+        if op == "sum" and dt in ("i4", "u1", "b"):
+            dom = "i"      # integer sums accumulate in int64, whose null marker is the int64 sentinel
     m = sx(["cumulative", dom, op, 1 if skip_na else 0, list(codes), atoms(v, dom), ng, bmask_sx(mask)])
     if skip_na:
         s = sx(["cum_spec", dom, op, list(codes), atoms(v, dom), bmask_sx(mask)])
